@@ -13,7 +13,7 @@ EXPLANATION = (
     "Value forms of devices.DAC per pulse shape and of devices.SAMPLER. C05.1: NRZ/rect is bias + Vout*kron(bits, ones(sps)) (np.repeat "
     "accepted) with sps read from gv at call time; RZ multiplies by the sps-periodic mask tile(zeros(sps) with [:sps//2]=1, len(bits)); "
     "the Gaussian branch convolves (mode='same', /2) a zeros(len*sps) train carrying the bits at offsets sps//2 and sps//2-1 with stride "
-    "sps, so every branch yields len(bits)*sps samples. C05.2: the only rescaling is x*Vout then +bias. C05.3: SAMPLER returns "
+    "sps, so every branch yields len(bits)*sps samples; the Gaussian kernel equals exp(-(1+jc)/2*(t/(T/k))^(2m)), k = 2*(2 ln 2)^(1/(2m)), t over +-4 slots, as a normal form in (T, m, c, sps). C05.2: the only rescaling is x*Vout then +bias. C05.3: SAMPLER returns "
     "input[instant::gv.sps] through __getitem__ (same slice on signal and noise) and uses the same global sps as the DAC's expansion. "
     "C05.4: documented rejections: Vout, bias not int/float -> TypeError, |.|>=48 -> ValueError; c non-scalar -> TypeError; m non-int -> "
     "TypeError, m<=0 -> ValueError; T non-int -> TypeError, T<=0 or T>2*sps -> ValueError; unknown pulse_shape -> ValueError "
